@@ -12,12 +12,16 @@ import (
 type TimedConn struct {
 	mu        sync.Mutex
 	buf       []byte
-	deadline  time.Time
+	deadline  time.Time // read deadline
+	wdeadline time.Time // write deadline
 	closed    bool
-	OnWrite   func(b []byte, at time.Time)
-	LastFeed  time.Time
-	WriteAt   []time.Time
-	Deadlines []time.Duration // each SetDeadline, relative to the moment it was called
+	// BlockWrites: the peer has stopped draining; a Write blocks until the WRITE deadline (forever
+	// without one), like a socket whose buffers are full
+	BlockWrites bool
+	OnWrite     func(b []byte, at time.Time)
+	LastFeed    time.Time
+	WriteAt     []time.Time
+	Deadlines   []time.Duration // each SetDeadline, relative to the moment it was called
 }
 
 func (c *TimedConn) Feed(b []byte) {
@@ -67,7 +71,20 @@ func (c *TimedConn) Write(b []byte) (int, error) {
 	}
 	c.WriteAt = append(c.WriteAt, now)
 	f := c.OnWrite
+	block := c.BlockWrites
 	c.mu.Unlock()
+	for block {
+		c.mu.Lock()
+		wd, closed := c.wdeadline, c.closed
+		c.mu.Unlock()
+		if closed {
+			return 0, net.ErrClosed
+		}
+		if !wd.IsZero() && !time.Now().Before(wd) {
+			return 0, os.ErrDeadlineExceeded
+		}
+		time.Sleep(100 * time.Microsecond)
+	}
 	if f != nil {
 		f(append([]byte(nil), b...), now)
 	}
@@ -84,10 +101,21 @@ func (c *TimedConn) LocalAddr() net.Addr  { return fakeAddr("local") }
 func (c *TimedConn) RemoteAddr() net.Addr { return fakeAddr("peer") }
 func (c *TimedConn) SetDeadline(t time.Time) error {
 	c.mu.Lock()
+	c.deadline, c.wdeadline = t, t
+	c.Deadlines = append(c.Deadlines, time.Until(t))
+	c.mu.Unlock()
+	return nil
+}
+func (c *TimedConn) SetReadDeadline(t time.Time) error {
+	c.mu.Lock()
 	c.deadline = t
 	c.Deadlines = append(c.Deadlines, time.Until(t))
 	c.mu.Unlock()
 	return nil
 }
-func (c *TimedConn) SetReadDeadline(t time.Time) error  { return c.SetDeadline(t) }
-func (c *TimedConn) SetWriteDeadline(t time.Time) error { return c.SetDeadline(t) }
+func (c *TimedConn) SetWriteDeadline(t time.Time) error {
+	c.mu.Lock()
+	c.wdeadline = t
+	c.mu.Unlock()
+	return nil
+}
